@@ -2374,6 +2374,11 @@ func (resp *Response) writeBodyStream(w *bufio.Writer, sendBody bool) (err error
 		}
 	}
 	if contentLength >= 0 {
+		if len(resp.Header.contentLengthBytes) == 0 {
+			// Content-Length was deleted by hand (Header.Del): announce the size
+			// that is about to be written, like the chunked branch below does.
+			resp.Header.SetContentLength(contentLength)
+		}
 		if err = resp.Header.Write(w); err == nil {
 			if resp.ImmediateHeaderFlush {
 				err = w.Flush()
